@@ -247,11 +247,28 @@ def compare(c, mo, io):
     diffs = []
     if mo[0] == 'rejected' and io[0] == 'rejected':
         return []
+    # float32 parameters: an element that has been large and came back near zero carries the rounding of its excursion (values
+    # ~1e3 leave absolute errors ~1e-4 in binary32), so the tolerance of an element follows the largest magnitude IT has had so far
+    hist = {}
+    f32 = c.get('dt') == 'f32'
     for k, (m, i) in enumerate(zip(mo, io)):
-        if m == i: continue
         ms, is_ = m.split(','), i.split(',')
-        tol = 2e-6 if c.get('dt') == 'f32' else 1e-10
-        if len(ms) != len(is_) or not all(_close(a, b, tol) for a, b in zip(ms, is_)):
+        tol = 2e-6 if f32 else 1e-10
+        ok = len(ms) == len(is_)
+        if ok and m != i:
+            for j, (a, b) in enumerate(zip(ms, is_)):
+                if _close(a, b, tol): continue
+                if f32 and c['lines'][k] == 'opt get' and a not in ('-', '?', 'rejected') and b not in ('-', '?', 'rejected'):
+                    x, y = common.bitsf(a), common.bitsf(b)
+                    if x == x and y == y and abs(x - y) <= 4e-6 * hist.get(j, 0.0): continue
+                ok = False; break
+        if f32 and c['lines'][k] == 'opt get' and len(ms) == len(is_):
+            for j, (a, b) in enumerate(zip(ms, is_)):
+                for t in (a, b):
+                    if t not in ('-', '?', 'rejected'):
+                        v = abs(common.bitsf(t))
+                        if v == v and v != float('inf'): hist[j] = max(hist.get(j, 0.0), v)
+        if not ok:
             diffs.append((c['lines'][k], m, i))
             break
     fl = c.get('_flags', {})
@@ -647,9 +664,14 @@ def oracle(c):
     if not legal:
         return {'key': dict(key, cls='accepted-illegal'), 'case': _strip(c), 'what': 'nesterov without momentum / with dampening was accepted'}
     want = _spec(c)
+    f32 = c.get('dt') == 'f32'
+    hist = {}
     for k, (a, b) in enumerate(zip(seen, want)):
-        for x, y in zip(a, b):
-            if (x != x) != (y != y) or (x == x and abs(x - y) > (2e-6 if c.get('dt') == 'f32' else 1e-9) * (1 + abs(x) + abs(y))):
+        for j, (x, y) in enumerate(zip(a, b)):
+            if f32:         # tolerance of an element follows the largest magnitude it has had so far (see compare)
+                for v in (abs(x), abs(y)):
+                    if v == v and v != float('inf'): hist[j] = max(hist.get(j, 0.0), v)
+            if (x != x) != (y != y) or (x == x and abs(x - y) > (2e-6 if f32 else 1e-9) * (1 + abs(x) + abs(y)) and not (f32 and abs(x - y) <= 4e-6 * hist.get(j, 0.0))):
                 return {'key': dict(key, cls='trajectory'), 'case': _strip(c, k + 1), 'what': f'after event {k} ({c["evs"][k][0]}) parameters are {a}, the published recursion gives {b}'}
     if not flags['inplace']:
         return {'key': dict(key, cls='inplace'), 'case': _strip(c), 'what': 'p.data was replaced, not updated in place'}
